@@ -58,6 +58,15 @@ def run_case(ctx, Model, case):
         from .common import h64
         case['model_class'] = ['plain', 'plain', 'plain', 'traced', 'aliased', 'pandas'][h64(['cls', case]) % 6]
     ctx.seen('model_classes', case['model_class'])
+    if 'solver_tol' not in case:
+        from .common import h64
+        k = h64(['stol', case]) % 24
+        if k < 6:
+            # extreme tolerances: nothing moves by less than NaN, 0 or a negative number; everything finite moves by less than inf
+            case['solver_tol'] = [math.nan, math.inf, 0.0, -1.0, np.float64(0.5), np.float32(0.5)][k]
+    if 'span_kind' not in case:
+        from .common import h64
+        case['span_kind'] = scripted.SPAN_KINDS[h64(['span', case]) % len(scripted.SPAN_KINDS)]
     if 't_numpy' not in case:
         from .common import h64
         case['t_numpy'] = h64(['tnp', case]) % 5 == 0       # the position given as a NumPy integer
@@ -83,7 +92,7 @@ def run_case(ctx, Model, case):
             start = dict(case['offset_source'])
     check = case['check'] if case.get('check') is not None else ['A', 'B']
     want = scripted.ref_solve_t([tuple(p) for p in case['script']], start, check, min_iter=case['min_iter'], max_iter=case['max_iter'],
-                                tol=case['tol'], failures=case['failures'], errors=case['errors'], cfe=case['cfe'],
+                                tol=case.get('solver_tol', case['tol']), scale=case['tol'], failures=case['failures'], errors=case['errors'], cfe=case['cfe'],
                                 before_fault=case.get('before_fault'), after_fault=case.get('after_fault'))
     if reject:
         want = dict(kind='exc', value=reject, nothing_changed=True, evals=0, befores=0, afters=0, stored=dict(case['start']))
